@@ -37,6 +37,9 @@ def run(db, chk) -> None:
     chk.floor("C13.R6-publish-after-build", 3)
     check_recompute_before_publish(db, chk, "C13.R7-recompute-before-publish")
     check_move_is_complete(db, chk, "C13.R8-move-is-complete")
+    check_stack_labels(db, chk, "C13.R4-backward-attachment")
+    from .c03 import host_rows_complete
+    host_rows_complete(db, chk, "C13.R9-tree-complete")          # the attributes are those of the call tree: every host event of the thread must be a node of it
 
 
 def _node(name, **attrs):
@@ -185,6 +188,15 @@ def _kernel_info(db, chk, cs, rule="C13.R1-kernel-info"):
                                 "s_start": Ser(T.col(FD, "ts"), dctx), "s_end": Ser(T.col(FD, "end"), dctx), "s_dur": Ser(T.col(FD, "dur"), dctx),
                                 "kernel_info": kinfo, "t_max": T.P("TMAX"), "KernelInfo": ("ntclass", "KernelInfo", tuple(fields))})
     leafs = [r.ret for r in runs if r.raised is None and isinstance(r.ret, Obj) and to_term(r.ret.attrs.get("count")) == T.C(1)]
+    # ... under a condition that only asks whether the activity is KNOWN (its id is in the lookup tables), never what its values are
+    for r in [r for r in runs if r.raised is None and isinstance(r.ret, Obj) and to_term(r.ret.attrs.get("count")) == T.C(1)][:1]:
+        conds = list(r.path)
+        membership = lambda c: isinstance(c, tuple) and c and c[0] == "in" and c[1] == IDX
+        value_tests = [c for c in conds if not membership(c) and T.find(c, lambda s_: isinstance(s_, tuple) and len(s_) == 3 and s_[0] == "at")]
+        other = [c for c in conds if not membership(c) and c not in value_tests]
+        chk.ob(rule, "device leaf: an activity counts as a kernel whenever its id is in the lookup tables (no test on its duration / times)", (not value_tests) if not other else None, where,
+               found=[T.show(c)[:120] for c in conds], accepted="idx in s_start",
+               why="`if s_dur.get(idx):` treats a zero-length activity as unknown: its ancestors lose a kernel (num_kernels, first/last kernel times, span)")
     if not leafs:
         chk.ob(rule, "device leaf: kernel info returned", None, where, found=len(runs))
     else:
@@ -601,3 +613,79 @@ def check_move_is_complete(db, chk, rule: str) -> None:
            accepted="self.nodes[p].children.remove(c) for the moved c (or an assignment of the filtered list)",
            why="a node that stays listed under its old parent is reached twice by the depth recomputation and keeps the depth of the stale path")
     chk.floor(rule, 3)
+
+
+def check_stack_labels(db, chk, rule: str) -> None:
+    """which thread is the MAIN thread and which the autograd (bwd) thread - the decision table of CallGraph._build_call_stacks._infer_stack_label, read off its
+    evaluated paths with the enclosing function's prefix as closure: a thread that holds profiler steps is 'main' even when it also runs autograd operators;
+    only a thread without steps that runs autograd operators is 'bwd'.  (The backward attachment of C13 and the operator instances of C16 depend on it.)"""
+    cg = db.mod(CG)
+    outer_q, nested = "CallGraph._build_call_stacks", "_infer_stack_label"
+    fdef = cg.functions.get(f"{outer_q}.{nested}")
+    where = cg.loc(fdef) if fdef is not None else CG
+    if fdef is None:
+        chk.ob(rule, "the label inference of the call stacks is found", None, where, found="no nested _infer_stack_label")
+        return
+    SD, FD = ("param", "SD"), ("param", "FD")
+
+    def hook(I, name, pos, kw, node):
+        if name.endswith("get_sym_id_map"):
+            return T.P("SYMMAP")
+        if name.endswith("get_sym_table"):
+            return T.P("SYMTAB")
+        return NotImplemented
+    I = Interp(db, call_hook=hook)
+    outer = cg.func(outer_q)
+    env0 = {p_: T.P(p_.upper()) for p_ in H.param_names(outer)}
+    env0.update({"self": Obj("self", cls=(cg, "CallGraph"), attrs={"trace_data": Obj("td", attrs={"symbol_table": Obj("symtab")})}), "df": Frame(FD)})
+    pn = [p_ for p_ in H.param_names(fdef)]
+    try:
+        runs = [r for r in I.explore(f"{CG}:{outer_q}.{nested}", lambda I: {pn[0]: Obj("stack", attrs={"df": Frame(SD)})}, lambda I: I.prefix_closure(cg, outer_q, nested, env0)) if r.raised is None]
+    except AnalysisError as e:
+        chk.ob(rule, "the label inference is analysable", None, where, found=str(e)[:160])
+        return
+    chk.analysed_add("functions", f"{CG}:{outer_q}.{nested}")
+
+    def which(c):
+        """('main' | 'bwd', polarity) for a test 'the thread has an event whose name is a profiler step / an autograd operator'"""
+        neg = False
+        if isinstance(c, tuple) and c and c[0] == "not":
+            neg, c = True, c[1]
+        pats = [x for x in T.subterms(c) if isinstance(x, tuple) and len(x) >= 4 and x[0] == "strmatch"]
+        names = T.find(c, lambda x: x == T.col(SD, "name"))
+        if len(pats) != 1 or not names:
+            return None
+        kind, pat = pats[0][1], pats[0][3]
+        if kind == "startswith" and T.is_const(pat) and str(pat[1]).startswith("ProfilerStep"):
+            w = "main"
+        elif kind == "contains" and T.is_const(pat) and "autograd::" in str(pat[1]):
+            w = "bwd"
+        else:
+            return None
+        if not (isinstance(c, tuple) and c and (c[0] in ("truthy", "overlap") or (c[0] == "cmp" and c[1] in (">", "!=", "<=", "==")))):
+            return None
+        pos = True if c[0] in ("truthy", "overlap") else c[1] in (">", "!=")
+        return (w, pos != neg)
+    table, verdict, notes = {}, True, []
+    for r in runs:
+        atoms = [which(c) for c in r.path]
+        label = to_term(r.ret)
+        lab = label[1] if T.is_const(label) else "<other>"
+        known = dict(a_ for a_ in atoms if a_ is not None)
+        if "main" not in known and "bwd" not in known:
+            verdict = None
+            notes.append("path without a recognised test: " + "; ".join(T.show(c)[:100] for c in r.path))
+            continue
+        for m_ in (True, False):
+            for b_ in (True, False):
+                if all(known.get(k, v) == v for k, v in (("main", m_), ("bwd", b_))):
+                    table.setdefault((m_, b_), set()).add(lab)
+    want_main = table.get((True, True)) == {"main"} and table.get((True, False)) == {"main"}
+    want_bwd = table.get((False, True)) == {"bwd"}
+    rest = "main" not in table.get((False, False), set()) and "bwd" not in table.get((False, False), set())
+    if verdict is not None:
+        verdict = bool(want_main and want_bwd and rest) if all(k in table for k in ((True, True), (True, False), (False, True), (False, False))) else None
+    chk.ob(rule, "a thread with profiler steps is the main thread (even if it also runs autograd operators); a thread with autograd operators and no steps is the bwd thread", verdict, where,
+           found={"(has steps, has autograd) -> label": {str(k): sorted(v) for k, v in sorted(table.items())}, "notes": notes[:2]},
+           accepted={"(True, *)": "main", "(False, True)": "bwd", "(False, False)": "neither"},
+           why="testing 'bwd' first labels a main thread that carries an autograd:: event as bwd: the real autograd thread is never attached beneath the profiler step and deeper operator instances are counted")
